@@ -238,6 +238,15 @@ def explore(mod, prop, tier, seed, jobs, workdir, lines, t0):
     for k in not_reproduced:
         inconclusive.append(f"violation {k!r} observed {len(by_key[k])} time(s) but not reproduced in a fresh process: "
                             f"{str(by_key[k][0].get('what'))[:300]}")
+    # input classes that every run exercises (recorded by tools/cellbase.py): one that is gone means the generator broke
+    try:
+        needed = json.load(open(os.path.join(os.path.dirname(__file__), "needed_cells.json"))).get(prop, [])
+    except (OSError, ValueError):
+        needed = []
+    if needed and not os.environ.get("VERIF_NO_NEEDED_CELLS"):
+        gone = [c for c in needed if not feats.get(c)]
+        if gone:
+            inconclusive.append(f"input classes never exercised in this run: {gone[:12]}")
     if hasattr(mod, "inconclusive_reasons"):
         inconclusive.extend(mod.inconclusive_reasons(dict(counters), dict(finish), dict(feats), tier) or [])
 
